@@ -3,8 +3,9 @@
 Prints per patch the properties that exit 1 (FALSE ALARM) or 2 (no verdict)."""
 import json, os, subprocess, sys, tempfile, concurrent.futures as cf
 VERIF = os.path.dirname(os.path.dirname(os.path.abspath(__file__)))
-ids = sys.argv[1:] or sorted(d for d in os.listdir(os.path.join(VERIF, 'neutral')) if os.path.isdir(os.path.join(VERIF, 'neutral', d)))
+ids = [a for a in sys.argv[1:] if not a.startswith('C')] or sorted(d for d in os.listdir(os.path.join(VERIF, 'neutral')) if os.path.isdir(os.path.join(VERIF, 'neutral', d)))
 props = sorted(f[:-3].upper() for f in os.listdir(os.path.join(VERIF, 'aylint', 'rules')) if f.startswith('c') and f[1:3].isdigit())
+props = [a for a in sys.argv[1:] if a.startswith('C')] or props
 def one(nid):
     wt = tempfile.mkdtemp(prefix='neut')
     subprocess.run(['cp', '-r', '/repo/awesomeyaml', wt + '/awesomeyaml'], check=True)
